@@ -204,8 +204,72 @@ def registry_consistency(tier, seed):
     return fails, n_eval
 
 
+def bystander_consistency(seed):
+    """'… after every step of any sequence': objects that are NOT the receiver or the result of a step are re-checked too —
+    objects built from one caller-owned dims / coords list, objects built with no arguments, and the objects one call returns
+    together (fit's parameters, errors and curve) must each stay consistent while another of them is changed in place"""
+    import warnings
+    import numpy as np
+    from common import dnp, consistent
+    fails, n_eval = [], 0
+    inplace = {"new_dim": lambda o: o.new_dim("n", 5.0), "squeeze": lambda o: o.squeeze(), "rename": lambda o: o.rename(o.dims[0], "renamed"),
+               "coords-pop": lambda o: o.coords.pop(o.dims[-1]), "reorder": lambda o: o.reorder([o.dims[-1]]),
+               "new_dim+squeeze": lambda o: (o.new_dim("n", 5.0), o.squeeze()), "coords-append": lambda o: o.coords.append("extra", np.arange(3.0))}
+
+    def groups():
+        dl = ["x", "y", "z"]; cl = [np.arange(2.0), np.array([5.0, 3.0, 4.0]), np.array([7.0])]
+        yield "one-dims-list", [dnp.DNPData(np.arange(6.0).reshape(2, 3, 1), dl, cl), dnp.DNPData(-np.arange(6.0).reshape(2, 3, 1), dl, cl)]
+        yield "default-constructed", [dnp.DNPData(), dnp.DNPData()]
+        xs = np.linspace(0.0, 2.0, 12)
+        fd = dnp.DNPData(np.stack([2.0 * xs + 1.0, -xs + 3.0, 0.5 * xs], axis=1).reshape(12, 3, 1), ["t", "rep", "run"], [xs, np.arange(3.0), np.arange(1.0)])
+        with warnings.catch_warnings():
+            warnings.simplefilter("ignore")
+            fo = dnp.fit(lambda x, p, q: p * x + q, fd, "t", (1.0, 0.0))
+        yield "fit-results", [v for v in fo.values() if isinstance(v, dnp.DNPData)]
+
+    for nm, act in inplace.items():
+        try:
+            gs = list(groups())
+        except Exception:  # noqa: BLE001
+            continue
+        for gname, objs in gs:
+            for k in range(len(objs)):
+                try:
+                    fresh = dict(groups())[gname]
+                except Exception:  # noqa: BLE001
+                    continue
+                with warnings.catch_warnings():
+                    warnings.simplefilter("ignore")
+                    try:
+                        act(fresh[k])
+                    except Exception:  # noqa: BLE001
+                        pass
+                n_eval += 1
+                others = [o for j, o in enumerate(fresh) if j != k] + ([dnp.DNPData()] if gname == "default-constructed" else [])
+                if gname == "default-constructed":
+                    # an object built with no arguments has no dimensions and no coordinates — before and after (its empty
+                    # 1-D values placeholder is the constructor's own convention, not judged here)
+                    bad = [j for j, o in enumerate(others) if list(o.dims) or len(o.coords.coords)]
+                else:
+                    bad = [j for j, o in enumerate(others) if not consistent(o)]
+                if bad:
+                    key = "C01:inconsistent-bystander:%s:%s" % (gname, nm)
+                    fails.append({"key": key, "clause": key, "ops": [{"group": gname, "action": nm, "changed_object": k,
+                                                                      "bystander_dims": [list(others[j].dims) for j in bad]}]})
+                    break
+    seen, uniq = set(), []
+    for f in fails:
+        if f["key"] not in seen:
+            seen.add(f["key"]); uniq.append(f)
+    return uniq, n_eval
+
+
 def run(tier, seed, escalate=False):
     res = P.run(tier, seed, escalate)
+    fb, nb = bystander_consistency(seed)
+    res["impl_failures"] += [f for f in fb if f["key"] not in {g["key"] for g in res["impl_failures"]}]
+    res["evaluations"] += nb
+    res["distribution"]["bystander_cases"] = nb
     f3, n3 = registry_consistency("thorough" if escalate else tier, seed)
     res["impl_failures"] += [f for f in f3 if f["key"] not in {g["key"] for g in res["impl_failures"]}]
     res["evaluations"] += n3
